@@ -344,12 +344,45 @@ func checkC19(c *Ctx) {
 			}
 			return ""
 		})
+	// the graceful-shutdown sequence: shutdownGracefully, or whichever function of the command calls
+	// (*http.Server).Shutdown on the main server
 	sg := p.Fn("cmd/helios", "", "shutdownGracefully")
+	if sg == nil {
+		for _, fn := range p.Funcs {
+			if pk := fnPkg(fn); pk == nil || !strings.HasSuffix(pk.Pkg.Path(), "/cmd/helios") {
+				continue
+			}
+			callsStop := false
+			callsShutdown := false
+			for _, ci := range callsIn(fn) {
+				if CalleeName(ci) == "(*net/http.Server).Shutdown" {
+					callsShutdown = true
+				}
+				if strings.HasSuffix(CalleeName(ci), "LoadBalancer).Stop") {
+					callsStop = true
+				}
+			}
+			if callsShutdown && callsStop {
+				sg = fn
+			}
+		}
+	}
 	sp2 := *sp
 	sp2.memo, sp2.frames, sp2.active = nil, nil, nil
 	c.traceRule("stop-order", "cmd/helios.shutdownGracefully", sg, &sp2,
 		"server.Shutdown(timeout ctx) < lb.Stop; error edge closes the server",
 		func(t *Trace) string {
+			if !t.Has("lb-stop") {
+				seen := false
+				for _, it := range t.Items {
+					if strings.HasPrefix(it.Label, "server-shutdown(") {
+						seen = true
+					}
+				}
+				if !seen {
+					return "" // a path of the enclosing function that is not a shutdown (start-up failure, …)
+				}
+			}
 			si, li := -1, t.Index("lb-stop", 0)
 			for i, it := range t.Items {
 				if strings.HasPrefix(it.Label, "server-shutdown(") {
